@@ -3,8 +3,8 @@ from gcv import typestate, cfg
 from gcv.props import common
 
 
-def run(chk, tier):
-    prog, T = typestate.engine("default")
+def run_config(chk, tier, cfgname):
+    prog, T = typestate.engine(cfgname)
     chk.explain("C04: exactly-once typestate (S6) on the automaton (a destruct fires only from live=1 and is "
                 "followed by live=0 or unlink/free, on normal and unwind exits); Drop for Context destructs every "
                 "live value once and frees every block once from every phase over all short list shapes, resuming "
@@ -37,3 +37,17 @@ def run(chk, tier):
     chk.floor("set_live(true)-sites", n, 1)
     from gcv import rules_layout
     rules_layout.agreement(chk, prog)
+
+
+def run(chk, tier):
+    cfgs = typestate.configs(tier)
+    chk.extra["feature_configs"] = cfgs
+    for c in cfgs:
+        chk.cfg = c
+        n_expl = len(chk.explanation)
+        nd = len(chk.not_decided)
+        run_config(chk, tier, c)
+        if c != cfgs[0]:
+            del chk.explanation[n_expl:]
+            del chk.not_decided[nd:]
+    chk.cfg = None
